@@ -258,7 +258,10 @@ class Build:
         os.makedirs(outdir, exist_ok=True)
         base = os.path.basename(path)
         bc = os.path.join(outdir, base + "." + form + ".bc")
-        flags = ["-I" + os.path.join(self.repo, "src"), "-I" + self.variant_dir("H"), "-DHAVE_CONFIG_H", "-std=gnu99"]
+        # fixtures are self-tests of the rules, not part of the analysed program: they are compiled against a frozen copy of the library's
+        # headers (fixtures/include, taken from the pinned tree) so that a change of a prototype or type in /repo cannot make a control uncompilable
+        finc = os.path.join(os.path.dirname(os.path.abspath(path)), "include")
+        flags = ["-I" + finc, "-DHAVE_CONFIG_H", "-std=gnu99"]
         flags += (["-O3"] if form == "R3" else []) + FORMS[form] + list(extra)
         p = run([CLANG] + flags + ["-w", "-emit-llvm", "-c", path, "-o", bc])
         if p.returncode != 0:
